@@ -78,4 +78,42 @@ func init() {
 		},
 		Outside: []string{"core sizes other than the listed cases", "read/write limits larger than the core", "process limits above 4"},
 	})
+
+	mpQuick := grid([]string{"M", "P"}, []int{3, 4, 5, 8, 13}, []int{1, 2, 3})
+	mpThorough := grid([]string{"M", "P"}, append(seq(3, 16), 24, 32), []int{1, 2, 3, 4})
+	Properties = append(Properties, &PropertySpec{
+		ID: "C11",
+		Harnesses: []HarnessSpec{
+			{Name: "C11_step", Expect: []string{"end", "write-limit", "read-limit"}, Quick: mpQuick, Thorough: mpThorough},
+			{Name: "C11_step_canary", Role: "canary",
+				Quick:    []Params{{"M": 5, "P": 2}, {"M": 8, "P": 3}},
+				Thorough: []Params{{"M": 5, "P": 2}, {"M": 8, "P": 3}}},
+			{Name: "C11_nolimit", Expect: []string{"end", "core-equal"},
+				Quick:    simCases(quickMP),
+				Thorough: simCases(pairs(append(seq(3, 16), 24, 32), []int{1, 2, 3}))},
+		},
+		Outside: []string{"core sizes other than the listed cases", "operand fetches that the simulator does not report (only the queued targets, changed cells and reported reads are observable)"},
+	})
+	Properties = append(Properties, &PropertySpec{
+		ID: "C04",
+		Harnesses: []HarnessSpec{
+			{Name: "C04_exec", Expect: []string{"end", "inv-fields-below-M"}, Quick: mpQuick, Thorough: mpThorough},
+			{Name: "C04_exec_biglimits", Expect: []string{"end", "inv-fields-below-M"},
+				Quick:    grid([]string{"M", "P"}, []int{3, 5, 8}, []int{1, 2}),
+				Thorough: grid([]string{"M", "P"}, seq(3, 16), []int{1, 2, 3})},
+			{Name: "C04_step", Expect: []string{"end", "inv-living-count"},
+				Quick:    grid([]string{"M", "P", "n"}, []int{3, 4, 5}, []int{1, 2}, []int{1, 2}),
+				Thorough: grid([]string{"M", "P", "n"}, []int{3, 4, 5, 8, 13}, []int{1, 2, 3}, []int{1, 2, 3})},
+			{Name: "C04_create", Expect: []string{"refused"},
+				Quick:    grid([]string{"M"}, []int{0, 1, 2}),
+				Thorough: grid([]string{"M"}, []int{0, 1, 2})},
+			{Name: "C04_create", Expect: []string{"refused", "accepted"},
+				Quick:    grid([]string{"M"}, []int{3, 4, 8, 64}),
+				Thorough: grid([]string{"M"}, []int{3, 4, 5, 8, 13, 64, 80, 256})},
+			{Name: "C04_spawn", Expect: []string{"end"},
+				Quick:    grid([]string{"M", "P", "len"}, []int{3, 5, 8}, []int{1, 2}, []int{0, 1, 3}),
+				Thorough: grid([]string{"M", "P", "len"}, []int{3, 4, 5, 8, 13}, []int{1, 2, 3}, []int{0, 1, 2, 3})},
+		},
+		Outside: []string{"core sizes other than the listed cases (creation: the core size is a case parameter, every other field is symbolic in 0..2^20)", "more than 3 warriors"},
+	})
 }
